@@ -94,6 +94,11 @@ def opC09ToFloat (j : Json) : Except String Json := do
   pure (Json.mkObj [("value", optRat (toFloat? s))])
 
 open Model.Retry in
+def opC09Selector (j : Json) : Except String Json := do
+  let pkg ← (← getArrL j "package").mapM (·.getStr?)
+  pure (Json.mkObj [("service", Json.str (selectorService pkg (← (← j.getObjVal? "name").getStr?)))])
+
+open Model.Retry in
 def opC09ExcTable (_ : Json) : Except String Json :=
   pure (Json.mkObj [
     ("table", jarr (Code.all.map fun c => jarr [Json.str c.name, Json.str (excOfCode c).name])),
@@ -106,7 +111,13 @@ def c09Select (j : Json) : Except String (ServiceConfig × String × String) := 
   let cfg ← match j.getObjVal? "configs" with
     | .ok (Json.arr a) => do pure (optsRetry (← a.toList.mapM c09ConfigOfJson))
     | _ => c09ConfigOfJson (← j.getObjVal? "config")
-  let svc ← (← j.getObjVal? "service").getStr?
+  -- "service": the full name, or {"package": [...], "name": "..."} = the declaring file's package and the service's name
+  let sj ← j.getObjVal? "service"
+  let svc ← match sj with
+    | Json.str s => pure s
+    | _ => do
+      let pkg ← (← getArrL sj "package").mapM (·.getStr?)
+      pure (selectorService pkg (← (← sj.getObjVal? "name").getStr?))
   let meth ← (← j.getObjVal? "method").getStr?
   pure (cfg, svc, meth)
 
@@ -208,7 +219,7 @@ def c09Wrap (f : Json → Except String Json) (j : Json) : Except String Json :=
   | .ok r => .ok r
 
 def opsC09 : List (String × (Json → Except String Json)) :=
-  [("c09.to_float", opC09ToFloat), ("c09.exc_table", opC09ExcTable), ("c09.defaults", c09Wrap opC09Defaults),
+  [("c09.to_float", opC09ToFloat), ("c09.selector", opC09Selector), ("c09.exc_table", opC09ExcTable), ("c09.defaults", c09Wrap opC09Defaults),
    ("c09.call", c09Wrap opC09Call), ("c09.table", c09Wrap opC09Table)]
 
 end GapicModel.Driver
